@@ -561,6 +561,13 @@ class SBV:
         n = self.itemsize
         return SBytes([Part(self, i, n) for i in range(n)])
 
+    def __array_function__(self, func, types, args, kwargs):
+        from .sarray import HANDLERS
+        h = HANDLERS.get(func.__name__)
+        if h is None:
+            raise OutsideModel(f"numpy.{func.__name__} on a symbolic scalar")
+        return h(*args, **kwargs)
+
     def item(self):
         return self.to_sint("bv")
 
